@@ -204,6 +204,9 @@ Quiescent == ~ENABLED Next
 Spec == Init /\ [][Next]_vars /\ WF_vars(Next)
 
 -----------------------------------------------------------------------------
+\* liveness: under weak fairness of the system as a whole (something that can happen eventually does) every call that was
+\* started comes to an end
+Completes == \A c \in Callers : (cpc[c] \notin {"idle", "done"}) ~> (cpc[c] = "done")
 Good == mon.bad = "ok"                                           \* own answer, at most once
 \* no caller is left waiting for ever: whenever nothing can happen any more every call has ended
 NoHang == Quiescent => \A c \in Callers : cpc[c] \in {"idle", "done"}
